@@ -39,7 +39,9 @@ def generate(rng, tier):
             n = max(4, 1500 // (m * p))
         data, style = statgen.gen_array(rng, m, n, p, rng.choice(["iid", "ar1", "ar1", "ar1neg", "trend", "displaced"]))
         ty = rng.choice(["f32", "f32", "f64", "i32"])
-        e = 0 if ty == "i32" else rng.choice([0, 0, -3, 2])
+        # incl. very small scales: the pooled variance falls below f32::EPSILON although the chain is perfectly regular (ESS
+        # is scale-free; nothing may clamp the denominators)
+        e = 0 if ty == "i32" else rng.choice([0, 0, -3, 2, -16, -24])
         cases.append({"op": "split", "ty": ty, "e": e, "data": data, "style": style})
     # a long array first (not evaluated by the model: it only exercises state that an implementation might keep between
     # calls, e.g. cached FFT plans), then the FFT-path cases in DEcreasing length, then everything else shuffled
